@@ -115,6 +115,13 @@ class C19(object):
         with contextlib.redirect_stdout(io.StringIO()):
             from ImageD11.sinograms import roi_iradon, geometry
         self.ri, self.geo = roi_iradon, geometry
+        self.scratch = ctx.scratch
+        # import (and compile the numba function used below) once in the parent: a scratch copy of the repository has no
+        # numba cache, and every forked worker would otherwise spend most of the budget compiling
+        with contextlib.redirect_stdout(io.StringIO()):
+            from ImageD11.sinograms import point_by_point as pbp, sinogram, dataset  # noqa
+            import ImageD11.grain  # noqa
+        pbp.get_voxel_idx(0.0, 0.0, 0.0, np.zeros(2), np.ones(2), np.zeros(2), 1.0)
         self.file = roi_iradon.__file__
 
     def make_pool(self, max_workers):
@@ -146,6 +153,7 @@ class C19(object):
                         "workers": rnd.choice([1, 1, 2, 3])} for _ in range(rnd.randint(1, 3))]
         return {"entry": "run_iradon", "ncores": ncores, "ystep": ystep, "ny": ny, "full": full, "nang": nang, "ymin": ymin,
                 "zero_cols": rnd.choice(["none", "none", "halves", "random", "random", "one", "cancel"]), "segments": rnd.choice([1, 2, 2, 3, 5]),
+                "halfmask_story": rnd.random() < 0.15, "h5_roundtrip": rnd.random() < 0.5,
                 "pbp_setmask": rnd.random() < 0.2, "interp_kind": rnd.choice([None, None, None, "cubic", "nearest"]),
                 "two_objects": rnd.random() < 0.5, "mask_layout": rnd.choice(["c", "c", "f", "t", "view"]),
                 "nonsquare": [rnd.randint(0, 9), rnd.randint(0, 9)],
@@ -300,6 +308,29 @@ class C19(object):
                                               "run_iradon with these parameters by %.3g (max %.3g)" % (k, len(steps), pad, shift, d, mx))
             if gs.recons.get("iradon") is not got and not np.array_equal(np.asarray(gs.recons.get("iradon")), got):
                 return V("history-dependent", "GrainSinogram.recons['iradon'] is not the reconstruction just returned")
+        if desc.get("h5_roundtrip"):
+            # the object is saved with a region-of-interest mask and read back (the module's own to_h5py_group /
+            # from_h5py_group): the reloaded object reconstructs as the one that was saved
+            import h5py
+            with contextlib.redirect_stdout(io.StringIO()):
+                gm = np.random.default_rng(ny * 1000 + len(omega))
+                m_ = gm.random(np.asarray(got).shape) < 0.3
+                gs.update_recon_parameters(mask=m_)
+                r_mask = np.asarray(gs.recon(method="iradon", workers=1, filter_name=desc["filter"])).copy()
+                ph = os.path.join(self.scratch, "c19_gs_%d.h5" % os.getpid())
+                if os.path.exists(ph):
+                    os.remove(ph)
+                with h5py.File(ph, "w") as h:
+                    gs.to_h5py_group(h, "g0")
+                with h5py.File(ph, "r") as h:
+                    gs_r = sinogram.GrainSinogram.from_h5py_group(h["g0"], gs.ds, gs.grain)
+                r_back = np.asarray(gs_r.recon(method="iradon", workers=1, filter_name=desc["filter"]))
+                gs.recon_mask = None
+                gs.recons["iradon"] = got
+            meas["h5_roundtrips"] = 1
+            if r_back.shape != r_mask.shape or not np.array_equal(r_back, r_mask):
+                return V("history-dependent", "a GrainSinogram saved with its ROI mask and read back reconstructs differently from the "
+                                              "object that was saved (mask read back as %s)" % np.asarray(gs_r.recon_mask).dtype)
         if desc.get("two_objects"):
             # another grain's GrainSinogram is reconstructed in between: what this one stores must stay its own
             with contextlib.redirect_stdout(io.StringIO()):
@@ -510,6 +541,25 @@ class C19(object):
             if not d <= lim:
                 viol = V("not-linear", "iradon(a*s1+s2) differs from a*iradon(s1)+iradon(s2) by %.3g (limit %.3g; empty "
                                        "projections: %s)" % (d, lim, zc))
+        if viol is None and desc.get("halfmask_story"):
+            # the same sinogram array is reconstructed, then once with the rarely used half-mask option, then again: the
+            # back-projection is a function of the sinogram, which the calls must leave alone
+            s_keep = np.ascontiguousarray(sino).copy()
+            s_work = s_keep.copy()
+            try:
+                with contextlib.redirect_stdout(io.StringIO()):
+                    ra_ = np.asarray(self.ri.run_iradon(s_work, omega, pad=pad, shift=shift, workers=1, filter_name=desc["filter"]))
+                    self.ri.run_iradon(s_work, omega, pad=pad, shift=shift, workers=1, filter_name=desc["filter"], apply_halfmask=True)
+                    rb_ = np.asarray(self.ri.run_iradon(s_work, omega, pad=pad, shift=shift, workers=1, filter_name=desc["filter"]))
+                meas["halfmask_stories"] = 1
+                if not np.array_equal(s_work, s_keep) or not np.array_equal(ra_, rb_):
+                    viol = V("history-dependent", "a reconstruction with apply_halfmask=True changed the caller's sinogram: the same "
+                                                  "array reconstructs differently afterwards (largest difference %.3g)" %
+                             float(np.abs(ra_ - rb_).max()))
+            except Exception as e:
+                if runner.is_harness_exception(e):
+                    raise
+                viol = V("raises", "run_iradon(apply_halfmask=True) raised %s: %s" % (type(e).__name__, e))
         if viol is None and desc.get("interp_kind") and R >= 3:
             # iradon with the other interpolation kinds it offers (same shifts, same output size as run_iradon uses)
             kind = desc["interp_kind"]
